@@ -55,6 +55,14 @@ FIRST_CONTACT_R4 = {
 }
 
 
+FIRST_CONTACT_R6C = {
+    "C01-r6C": "C01", "C02-r6C": "C02 C03 C06 (all three for a wrong reason; now undecided)", "C03-r6C": "none (undecided)", "C04-r6C": "C04 C05 C16", "C05-r6C": "none (undecided)",
+    "C06-r6C": "C06", "C07-r6C": "C06 C07 (wrong reason; now undecided)", "C08-r6C": "C06 only - C08 was silent (generators did not carry iteration order)", "C09-r6C": "C09",
+    "C10-r6C": "C02", "C11-r6C": "none (undecided)", "C12-r6C": "none (undecided)", "C13-r6C": "C13 C14 (wrong reason; now undecided)", "C14-r6C": "C13 C14 (C14 for a wrong reason; now C13 only)",
+    "C15-r6C": "none (undecided)", "C16-r6C": "C04", "C17-r6C": "C07 C17 (C07 for a wrong reason; now C17 only)", "C18-r6C": "C18", "C19-r6C": "C19", "C20-r6C": "C12 C20",
+}
+
+
 def table_r3(root, tag="-r3"):
     rows = []
     first = 0
@@ -67,6 +75,8 @@ def table_r3(root, tag="-r3"):
         if not os.path.isfile(mp):
             continue
         m = json.load(open(mp))
+        if m.get("kind") != "benign-refactoring":
+            continue
         und = sorted(m.get("undecided_for", {}))
         if und:
             part += 1
@@ -79,7 +89,7 @@ def table_r3(root, tag="-r3"):
             first += 1
         extra = " %s |" % (" ".join(fc) or "-") if fc is not None else ""
         rows.append("| %s | %s | %d | %s |%s %s |" % (d, m["property"], len(m.get("clean_for", [])), " ".join(und) or "-", extra, (m.get("what") or "").replace("|", "/")[:110]))
-    if tag == "-r5":
+    if tag in ("-r5", "-r6"):
         print("| refactoring | written for | checks silent and decided | checks answering undecided | false alarms at first contact | what it is |")
         print("|---|---|---|---|---|---|")
     else:
@@ -87,7 +97,7 @@ def table_r3(root, tag="-r3"):
         print("|---|---|---|---|---|")
     print("\n".join(rows))
     print()
-    if tag == "-r5":
+    if tag in ("-r5", "-r6"):
         print("%d of these refactorings were reported as a violation by at least one check when first run; each report was a false alarm and was removed by generalising the rule." % first)
         print()
     print("%d refactorings: %d decided clean by all 20 checks, %d with at least one undecided answer (the target property's own check undecided for %d); none is reported as a violation." % (full + part, full, part, tgt_und))
@@ -96,9 +106,9 @@ def table_r3(root, tag="-r3"):
 def main():
     rnd = sys.argv[1] if len(sys.argv) > 1 else "r2"
     root = os.path.join(HERE, "seeded")
-    if rnd in ("r3", "r5"):
+    if rnd in ("r3", "r5", "r6"):
         return table_r3(root, "-" + rnd)
-    first = FIRST_CONTACT_R4 if rnd == "r4" else FIRST_CONTACT_R2
+    first = FIRST_CONTACT_R4 if rnd == "r4" else (FIRST_CONTACT_R6C if rnd == "r6C" else FIRST_CONTACT_R2)
     rows = []
     for d in sorted(os.listdir(root)):
         if ("-" + rnd) not in d:
